@@ -333,10 +333,26 @@ theorem azimuthal_angle_addition (c s : Rat) (j k : Nat) : cisPow c s (j + k) =
     ((cisPow c s j).1 * (cisPow c s k).1 - (cisPow c s j).2 * (cisPow c s k).2,
      (cisPow c s j).1 * (cisPow c s k).2 + (cisPow c s j).2 * (cisPow c s k).1) := cisPow_add c s j k
 
+/-- **The azimuthal clause for every real direction.** `azimQ` is scalar-polymorphic; the driver executes it at
+`Rat`. The *same definition* instantiated at `ℝ` is, for every real `θ` and every integer `m`, the code's
+`zernike_azimuthal(m, θ)` without its `√2`: `cos(mθ)` (`m > 0`), `sin(|m|θ) = sin(-mθ)` (`m < 0`), `1` (`m = 0`). -/
+theorem azimuthal_all_real (m : Int) (θ : ℝ) :
+    azimQ m (Real.cos θ) (Real.sin θ) = if m = 0 then 1 else if 0 < m then Real.cos (m * θ) else Real.sin (-m * θ) :=
+  azimQ_cos_sin m θ
+
+/-- De Moivre for the executable `cisPow`, every real `θ`, every power -/
+theorem cisPow_all_real (θ : ℝ) (k : Nat) :
+    cisPow (Real.cos θ) (Real.sin θ) k = (Real.cos (k * θ), Real.sin (k * θ)) := cisPow_cos_sin θ k
+
+/-- what the driver computes at `Rat` is the restriction of the real instance to rational `(c, s)`
+(the definition uses only `+`, `-`, `*`, `0`, `1`, which the cast preserves) -/
+theorem azimuthal_rat_restricts_real (m : Int) (c s : Rat) : ((azimQ m c s : Rat) : ℝ) = azimQ m (c : ℝ) (s : ℝ) :=
+  azimQ_cast m c s
+
 /-- over `ℝ`: for a direction `θ` with rational cosine and sine the model's azimuthal factor is
 `cos(mθ)` (`m > 0`), `sin(|m|θ)` (`m < 0`), `1` (`m = 0`) -/
 theorem azimuthal_is_cos_sin (m : Int) (c s : Rat) (θ : ℝ) (hc : (c : ℝ) = Real.cos θ) (hs : (s : ℝ) = Real.sin θ) :
-    (azimQ m c s : ℝ) = if m = 0 then 1 else if 0 < m then Real.cos (m * θ) else Real.sin (-m * θ) :=
+    ((azimQ m c s : Rat) : ℝ) = if m = 0 then 1 else if 0 < m then Real.cos (m * θ) else Real.sin (-m * θ) :=
   azimQ_trig m c s θ hc hs
 
 /-- **The value clause of C13.** For every valid `(n, m)` with `n ≤ 20`, every rational radius `r`
@@ -345,7 +361,7 @@ repaired code computes is `√(n+1)·√2^{[m≠0]}` (`normSq`, kept symbolic) t
 `R_n^{|m|}(2r/D) · {cos mθ, sin |m|θ, 1}` with `R` given by the factorial formula. -/
 theorem mode_matches_definition (n : Nat) (m : Int) (hn : n ≤ 20) (hv : valid n m = true) (D r c s : Rat) (θ : ℝ)
     (hc : (c : ℝ) = Real.cos θ) (hs : (s : ℝ) = Real.sin θ) :
-    (modeQ n m D r c s : ℝ) =
+    ((modeQ n m D r c s : Rat) : ℝ) =
       (∑ k ∈ range ((n - m.natAbs) / 2 + 1),
         ((-1) ^ k * ((n - k).factorial : ℝ) /
           ((k.factorial : ℝ) * (((n + m.natAbs) / 2 - k).factorial : ℝ) * (((n - m.natAbs) / 2 - k).factorial : ℝ))) *
@@ -449,7 +465,7 @@ theorem azimuthal_orthonormal (m m' : ℤ) :
 
 /-- the real azimuthal factor is the one of the executable model (times `√2` for `m ≠ 0`) -/
 theorem azimR_eq_model (m : ℤ) (c s : Rat) (θ : ℝ) (hc : (c : ℝ) = cos θ) (hs : (s : ℝ) = sin θ) :
-    azimR m θ = (if m = 0 then 1 else √2) * (azimQ m c s : ℝ) := by
+    azimR m θ = (if m = 0 then 1 else √2) * ((azimQ m c s : Rat) : ℝ) := by
   rw [azimuthal_is_cos_sin m c s θ hc hs]
   unfold azimR
   split
@@ -461,12 +477,37 @@ theorem azimR_eq_model (m : ℤ) (c s : Rat) (θ : ℝ) (hc : (c : ℝ) = cos θ
 /-- the real mode `zernikeR` is what the executable model computes: `√(n+1)·√2^{[m≠0]}·modeQ` -/
 theorem zernikeR_eq_model (n : Nat) (m : ℤ) (hn : n ≤ 20) (hv : valid n m = true) (D r c s : Rat) (θ : ℝ)
     (hc : (c : ℝ) = cos θ) (hs : (s : ℝ) = sin θ) :
-    zernikeR n m ((2 * r / D : Rat) : ℝ) θ = √((n : ℝ) + 1) * (if m = 0 then 1 else √2) * (modeQ n m D r c s : ℝ) := by
+    zernikeR n m ((2 * r / D : Rat) : ℝ) θ = √((n : ℝ) + 1) * (if m = 0 then 1 else √2) * ((modeQ n m D r c s : Rat) : ℝ) := by
   obtain ⟨hv1, hv2⟩ := valid_iff.mp hv
   unfold zernikeR modeQ
   rw [azimR_eq_model m c s θ hc hs, ← radial_real_matches_definition n m.natAbs hn hv1 hv2, pevalR_cast,
     peval_radialPoly]
   push_cast
+  ring
+
+/-- `zernike_azimuthal(m, θ)` (`azimR`, with its `√2`) is `√2^{[m≠0]}` times the executable `azimQ` at
+`(cos θ, sin θ)` — for **every real** `θ` (no rationality hypothesis) -/
+theorem azimR_eq_model_all_real (m : ℤ) (θ : ℝ) :
+    azimR m θ = (if m = 0 then 1 else √2) * azimQ m (cos θ) (sin θ) := by
+  rw [azimuthal_all_real m θ]
+  unfold azimR
+  split
+  · simp
+  · split
+    · rfl
+    · push_cast; rfl
+
+/-- **The value clause for every real point.** For valid `(n, m)`, `n ≤ 20`, every real normalised radius `x = 2r/D`
+and every real azimuth `θ`, the definition `zernikeR` (`√(n+1)` · factorial-formula radial polynomial · `√2 cos mθ` /
+`√2 sin|m|θ` / `1`) is `√(n+1)·√2^{[m≠0]}` times [the radial polynomial the recursion produces (`radialPoly`, whose
+evaluation at rational points is `radialEval`, what the driver runs: `radial_poly_eval`, `pevalR_at_rational`), evaluated
+at `x`] times [the executable `azimQ` instantiated at `ℝ`]. -/
+theorem zernikeR_eq_model_all_real (n : Nat) (m : ℤ) (hn : n ≤ 20) (hv : valid n m = true) (x θ : ℝ) :
+    zernikeR n m x θ = √((n : ℝ) + 1) * (if m = 0 then 1 else √2) *
+      (pevalR (radialPoly n m.natAbs) x * azimQ m (cos θ) (sin θ)) := by
+  obtain ⟨hv1, hv2⟩ := valid_iff.mp hv
+  unfold zernikeR
+  rw [azimR_eq_model_all_real m θ, ← radial_real_matches_definition n m.natAbs hn hv1 hv2]
   ring
 
 /-- **Orthonormality over the unit disc** (polar coordinates, area element `r dθ dr`): for all valid
